@@ -344,6 +344,12 @@ def run_shard(sh):
                 d = qval(k, fmt)
                 for (m, c, r) in combos:
                     judge_scalar(acc, fmt, m[0], m[1], d, c, r, 'A2')
+                # a destination that stored huge values before x array carriers x every mode (beyond the deviation bound on purpose:
+                # the library switches its storage path on the magnitude of what it stores)
+                for r in ('set_val@huge', 'setitem@huge'):
+                    for c in ('arr1.float64', 'list'):
+                        for m in MODES:
+                            judge_scalar(acc, fmt, m[0], m[1], d, c, r, 'A2')
     elif part == 'B':
         nw = sh['nw']
         for nf in range(-8, nw + 9):
